@@ -133,6 +133,7 @@ type Exec struct {
 	noGuard int
 	usedAxioms map[*Lemma]bool
 	axSt *State
+	hitAnchors map[string]bool
 }
 
 func (x *Exec) note(f string, a ...any) {
